@@ -43,6 +43,19 @@ def replay_line(row, ctx, opts):
         expect("encode_nibbles-unterminated-differs-from-HP", call(nb.encode_nibbles, nib), hpF, nibbles=nib)
         expect("decode_nibbles-does-not-invert-HP", call(nb.decode_nibbles, hpT), nib + (16,), nibbles=nib)
         expect("decode_nibbles-does-not-invert-HP", call(nb.decode_nibbles, hpF), nib, nibbles=nib)
+        # the same sequences held in a list, and the terminator helpers on both kinds of sequence
+        term = nib + (16,)
+        expect("encode_nibbles-terminated-differs-from-HP", call(nb.encode_nibbles, list(term)), hpT, nibbles=nib, as_list=True)
+        expect("encode_nibbles-unterminated-differs-from-HP", call(nb.encode_nibbles, list(nib)), hpF, nibbles=nib, as_list=True)
+        for seq in (term, list(term)):
+            expect("terminated-sequence-not-recognised", bool(call(nb.is_nibbles_terminated, seq)), True, nibbles=nib)
+            expect("add_nibbles_terminator-not-idempotent", tuple(call(nb.add_nibbles_terminator, seq)), term, nibbles=nib)
+            expect("remove_nibbles_terminator-wrong", tuple(call(nb.remove_nibbles_terminator, seq)), nib, nibbles=nib)
+            expect("compute_leaf_key-differs-from-HP", call(nd.compute_leaf_key, seq), hpT, nibbles=nib, terminated=True)
+        for seq in (nib, list(nib)):
+            expect("unterminated-sequence-taken-as-terminated", bool(call(nb.is_nibbles_terminated, seq)), False, nibbles=nib)
+            expect("add_nibbles_terminator-wrong", tuple(call(nb.add_nibbles_terminator, seq)), term, nibbles=nib)
+            expect("remove_nibbles_terminator-wrong", tuple(call(nb.remove_nibbles_terminator, seq)), nib, nibbles=nib)
         expect("compute_leaf_key-differs-from-HP", call(nd.compute_leaf_key, nib), hpT, nibbles=nib)
         expect("compute_extension_key-differs-from-HP", call(nd.compute_extension_key, nib), hpF, nibbles=nib)
         leaf, ext = [hpT, b"value"], [hpF, H32]
